@@ -318,6 +318,184 @@ def rule_units(ctx, rule="R3"):
            % (sites, sorted(consts)), what="position-constants-wrong")
 
 
+NUMERIC_TYS = ("f32", "f64", "u8", "u16", "u32", "u64", "usize", "i8", "i16", "i32", "i64", "isize")
+
+
+def _unit_table(F):
+    cands = []
+    for b in F.find(crate=PARSER_CRATE):
+        if b["def_kind"] == "Closure" or "f32" not in (b.get("sig_output") or ""):
+            continue
+        if any(c.get("k") == "const" and c.get("str") in ("ms", "s") for c in _consts_of(b)):
+            cands.append(b)
+    return cands[0] if len(cands) == 1 else None
+
+
+def rule_emitted_numbers(ctx, rule="R5"):
+    """Every number the macros write into an expansion (`<f32|u32|.. as ToTokens>::to_tokens`) is a fixed function of the
+    sentence: 0.0 / 1.0 (from / to), literal * 0.01 (percent), literal * unit(literal) (durations, delays), or the parsed
+    integer itself (repeat count) - one form per grammar alternative, no conversion through another numeric type, and no
+    branch on the size of the literal.  Decides the position / unit / count clauses for every literal, where the corpus can
+    only sample some."""
+    F = ctx.facts
+    import struct
+    f32 = lambda x: struct.unpack("f", struct.pack("f", x))[0]
+    unit = _unit_table(F)
+    local = {b["path"]: b for b in F.find(crate=PARSER_CRATE) if b["def_kind"] != "Closure"}
+
+    def fconst(t):
+        return t[2][2] if pse.is_const(t) and isinstance(t[2], tuple) and t[2][0] == "f" else None
+
+    def payload(t):
+        """strip `(Try::branch(x) as Continue).0` and Ok{..} wrappers"""
+        while True:
+            if t[0] == "field" and t[1][0] == "variant" and t[1][2] == "Continue" and t[1][1][0] == "call" and \
+                    t[1][1][1].endswith("Try>::branch"):
+                t = t[1][1][2][0]
+                continue
+            if t[0] == "agg" and t[3] == "Ok" and len(t[4]) == 1:
+                t = t[4][0][1]
+                continue
+            return t
+
+    reader_cache = {}
+
+    def is_reader(path):
+        """a crate-local function that only reads a literal: every successful result is the payload of a syn literal
+        accessor applied to (a field of) its own argument, at most widened - no arithmetic, no float constants"""
+        if path in reader_cache:
+            return reader_cache[path]
+        reader_cache[path] = False
+        b = local.get(path)
+        if b is None:
+            return False
+        ps = pse.Engine(F, inline=lambda fn, bb: False).run(b)
+        ctx.count_paths(ps, b)
+        ok, n = True, 0
+        for q in ps:
+            if q.outcome != "return":
+                continue
+            r = payload(q.ret)
+            if r[0] == "call" and r[1].endswith("from_residual"):
+                continue
+            if r[0] == "cast":
+                r = r[2]
+            r = payload(r)
+            n += 1
+            ok = ok and r[0] == "call" and r[1].startswith("syn::lit::")
+        reader_cache[path] = ok and n > 0
+        return reader_cache[path]
+
+    def leaf(t):
+        """('lit', place) for a literal read, ('unit', place) for the unit table applied to a literal, else None"""
+        t = payload(t)
+        if t[0] != "call":
+            return None
+        arg = t[2][0] if t[2] else None
+        if arg is not None and arg[0] == "&":
+            arg = arg[1]
+        if unit is not None and t[1] == unit["path"]:
+            return ("unit", arg)
+        if t[1].startswith("syn::lit::") and t[1].endswith("base10_parse"):
+            return ("lit", arg)
+        if is_reader(t[1]):
+            return ("lit", arg)
+        return None
+
+    def classify(t):
+        """name of the accepted form of an emitted value, or None"""
+        t = payload(t)
+        c = fconst(t)
+        if c is not None:
+            return {0.0: "zero", 1.0: "one"}.get(c)
+        if leaf(t) and leaf(t)[0] == "lit":
+            return "literal"
+        if t[0] == "bin" and t[1] == "Mul":
+            a, b_ = payload(t[2]), payload(t[3])
+            for x, y in ((a, b_), (b_, a)):
+                lx = leaf(x)
+                if lx and lx[0] == "lit":
+                    if fconst(y) == f32(0.01):
+                        return "percent"
+                    ly = leaf(y)
+                    if ly and ly[0] == "unit" and ly[1] == lx[1]:
+                        return "seconds"
+        return None
+
+    def literals_of(t):
+        return [x for x in pse.subterms(t) if x[0] == "call" and leaf(x) and leaf(x)[0] == "lit"]
+
+    seen_forms = {}
+    groups = {}
+    n_sites = 0
+    work = [b for b in local.values() if not (b.get("impl_trait") or "").endswith("Parse")]
+    helper_returns = []
+    done = set()
+    while work:
+        b = work.pop()
+        as_helper = b["id"] in [h["id"] for h in helper_returns]
+        if (b["id"], as_helper) in done or (unit is not None and b["id"] == unit["id"]):
+            continue
+        done.add((b["id"], as_helper))
+        try:
+            ps = pse.Engine(F, inline=lambda fn, bb: False).run(b)
+        except pse.Budget:
+            continue
+        ctx.count_paths(ps, b)
+        for q in ps:
+            g = frozenset((show(t), v) for (t, v, s_) in q.conds
+                          if t[0] == "discr" and not isinstance(v, tuple) and pse.contains(t, ("param", 1)) | pse.contains(t, ("param", 2))
+                          | pse.contains(t, ("param", 3)) and not any(x[0] == "call" for x in pse.subterms(t)))
+            emitted = []
+            ordinal = {}
+            for e in q.events:
+                if e["kind"] == "call" and e["callee"].endswith("ToTokens>::to_tokens") and \
+                        (e["fn"].get("self_ty") or "").strip() in NUMERIC_TYS:
+                    v = e["descs"][0]
+                    # the place of the emission: the function or closure it is written in and its rank there (the call
+                    # site itself lies inside quote's own macro)
+                    where = e.get("body") or b["path"]
+                    ordinal[where] = ordinal.get(where, 0) + 1
+                    emitted.append(("%s#%d" % (where, ordinal[where]), v[1] if v[0] == "&" else v))
+            if as_helper and q.outcome == "return":
+                r = payload(q.ret)
+                if not (r[0] == "call" and r[1].endswith("from_residual")):
+                    emitted.append(("return of " + b["path"], r))
+            for (site, v) in emitted:
+                v = payload(v)
+                # a number computed by a helper of the crate: judge the helper's results instead
+                if v[0] == "call" and v[1] in local and leaf(v) is None and "f32" in (local[v[1]].get("sig_output") or "") + \
+                        "u32" * ("u32" in (local[v[1]].get("sig_output") or "")):
+                    h = local[v[1]]
+                    if (h["id"], True) not in done:
+                        helper_returns.append(h)
+                        work.append(h)
+                    continue
+                n_sites += 1
+                form = classify(v)
+                ctx.ob(rule, "%s/form[%s]" % (b["path"], show(v)[:90]), form is not None,
+                       "a number written into the expansion must be 0.0, 1.0, literal * 0.01, literal * unit(literal) or the "
+                       "parsed literal itself; it is %s" % show(v), b["span"], trace_of(q), what="emitted-number-form")
+                if form is None:
+                    continue
+                seen_forms[form] = seen_forms.get(form, 0) + 1
+                groups.setdefault((b["path"], site, g), set()).add(form if form in ("zero", "one") else form + ":" + show(v))
+                lits = literals_of(v)
+                dep = [show(t) for (t, vv, s_) in q.conds if any(pse.contains(t, ("field", ("variant", ("call",) + l[1:3], "Continue"), "0"))
+                                                               or (pse.contains(t, l) and not (t[0] == "discr" and t[1][0] == "call" and t[1][1].endswith("Try>::branch")))
+                                                               for l in lits)]
+                ctx.ob(rule, "%s/no-branch-on-literal[%s]" % (b["path"], form), not dep,
+                       "the expansion must not depend on the size of a literal other than through the emitted number: %s" % dep,
+                       b["span"], trace_of(q), what="branches-on-literal-value")
+    for (bp, site, g), forms in sorted(groups.items(), key=lambda kv: str(kv[0])):
+        ctx.ob(rule, "%s/one-form-per-alternative[%s]" % (bp, ",".join(sorted("%s=%s" % x for x in g))[:120]), len(forms) == 1,
+               "one grammar alternative must always produce the same form of number; it produces %s" % sorted(forms),
+               what="alternative-not-uniform")
+    for form, floor in (("zero", 1), ("one", 1), ("percent", 1), ("seconds", 2), ("literal", 1)):
+        ctx.floor(rule, "emitted numbers of form '%s'" % form, seen_forms.get(form, 0), floor)
+    ctx.extra["emitted_number_sites"] = n_sites
+
+
 def rule_negatives(ctx, rule="R4"):
     """ill-formed sentences are rejected at compile time; their twins compile"""
     w = witness.load(ctx, "timeline")
@@ -378,6 +556,7 @@ def check(ctx):
     rule_grammar(ctx, prods, "R2")
     rule_units(ctx, "R3")
     rule_negatives(ctx, "R4")
+    rule_emitted_numbers(ctx, "R5")
     ctx.notes.append("not decided: sentences outside the corpus (bounded by R2's coverage argument: every parser alternative "
                      "and suffix is exercised and none is unknown to the generator)")
     ctx.assumptions += ["the generator's encoding of the documented reading (witness/gen.py)",
